@@ -136,6 +136,7 @@ theorem writeDatabasePage_bytes (s s' : Eng) (pgno : Nat) (d : ByteArray) (h : w
   obtain ⟨_, hsz, h⟩ := M_bind_ok h
   have hsz := ensure_ok hsz
   obtain ⟨_, _, h⟩ := M_bind_ok h
+  obtain ⟨_, _, h⟩ := M_bind_ok h
   simp only [pure, Except.pure] at h
   injection h with h
   subst h
